@@ -410,6 +410,11 @@ def train_classifier(prop):
                 else:
                     info["prop_fail"] = "reload-generates-different-files"
                     info["why"] = "files generated from the reloaded model differ from those of the in-memory model (or generation is not deterministic)"
+        elif prop == "C18":
+            if flags.get("INJ") == "0":
+                # theorem intern_injective: along any history of calls, removals and reloads every map stays injective
+                info["prop_fail"] = "different-strings-share-a-feature-id"
+                info["why"] = "after reloading the model and reading a user lexicon two different expansion strings carry the same feature id"
         elif prop == "C16":
             k = int(flags.get("K", "0"))
             bad = None
@@ -472,9 +477,20 @@ def extract_classifier(kinds):
             if impl.startswith("ok") and mobs.startswith("err"):
                 info["prop_fail"] = "mecab-malformed-accepted"
                 info["why"] = "generate_bigram_info accepted an input that must be reported as an error (gap / malformed id line / id 0)"
+            if flags.get("MECABCOST") == "0":
+                # the generated files differ from the model's AND give different connection costs; the model's costs
+                # are the model.def sums (theorem mecab_cost_eq_sum)
+                info["prop_fail"] = "mecab-costs-differ-from-model-def-sums"
+                info["why"] = "the bigram files written by generate_bigram_info define connection costs (or id counts) other than the sums of the model.def lines"
             if impl.split()[0] == "panic" and not mobs.startswith("panic"):
                 info["prop_fail"] = "mecab-panic"
                 info["why"] = "generate_bigram_info panicked"
+        if kind == "expand" and "expand" in kinds and impl != mobs and impl.split()[0] in ("some", "none") \
+                and mobs.split()[0] in ("some", "none"):
+            # decider: the model's expansion is the substitution over the unique reading of the template
+            # (theorems expand_spec, template_reading_exists/unique, optional_none_iff)
+            info["prop_fail"] = "template-expansion-differs-from-its-reading"
+            info["why"] = "a template expands to something other than the substitution of %F/%L/%R[i], %t and the optional placeholders"
         return info
     return classify
 
